@@ -43,6 +43,10 @@ var c09Fixed = []string{
 	// EOF after CloseConnectionResponse is the orderly end
 	"new:0 start pf:63:0:1:0 shutdown:1 w:1 ps:4:@1:0 r:1 pc rc",
 	"new:0 start pf:63:0:1:0 shutdown:1 w:1 ps:4:@1:0 pc r:1 rc",
+	// more keep-alives than the acknowledgement queue holds while the write loop is parked behind CloseConnection: the
+	// surplus is dropped, the read loop goes on to the CloseConnectionResponse
+	"new:0 start pf:63:0:1:0 shutdown:1 w:1 ps:62:101:0 ps:62:102:0 ps:62:103:0 ps:62:104:0 ps:62:105:0 ps:62:106:0 ps:62:107:0 ps:62:108:0 ps:4:@1:0 r:1 pc rc",
+	"new:1 start pf:63:0:1:0 w:1 ps:56:0:18 w:2 ps:57:1:0 shutdown:1 w:3 ps:62:101:0 ps:62:102:0 ps:62:103:0 ps:62:104:0 ps:62:105:0 ps:62:106:0 ps:62:107:0 ps:4:@3:0 r:1 pc rc",
 	// a Shutdown that gave up before its CloseConnection reached the write loop (nothing was written) leaves no trace: an
 	// unrequested CloseConnectionResponse followed by the end of the stream is a failed connection, not an orderly end
 	"new:0 shutdown:1 z cancel:1 r:1 start pf:63:0:1:0 z ps:4:77:0 pc rc",
